@@ -4,7 +4,7 @@
      fproj_res   - the projection of an implementation result on the specification's observables,
      kf02       - the decidable classifier of the KNOWN deviations of the implementation,
                   as a function of the specification state and the operation,
-     dghost/kfdir - the same for directory handles.
+     impl_dcall - the MemFS call of a directory-handle operation.
    Definitions only; the theorems are in FileProofs.v. *)
 From Avfs Require Import Base PathModel MemFS MemFile World FileSpec.
 Set Implicit Arguments.
@@ -69,17 +69,12 @@ Definition fproj_res (r : res) : sres :=
   end.
 
 (* ---- known deviations of MemFile / MemFS from os.File ------------------------- *)
-Inductive finding :=
-(* directory handles *)
-| KfDirRestart           (* after io.EOF or ReadDir(n<=0) the next read starts the listing again; os stays at the end *)
-| KfDirAllAfterPartial   (* ReadDir(n<=0) after a partial read returns ALL entries; os returns the remaining ones *)
-| KfDirMixedCursors      (* ReadDir and Readdirnames keep separate caches behind one index *)
-| KfDirSeek.             (* Seek on a directory handle does nothing and returns 0; os rewinds / validates *)
+(* Every deviation this classifier once listed has been repaired in /repo (see known_findings.jsonl, `fixed:` lines,
+   and corpus/C02-witness.cases): the type of findings is empty, nothing is classified, and any deviation of the
+   implementations from os.File is a violation.  A future finding gets a constructor here and a case in kf02. *)
+Inductive finding := .
 
-Definition finding_id (k : finding) : N :=
-  match k with
-  | KfDirRestart => 21 | KfDirAllAfterPartial => 22 | KfDirMixedCursors => 23 | KfDirSeek => 24
-  end%N.
+Definition finding_id (k : finding) : N := match k with end.
 
 Definition open_on (st : fstate) (i : nat) : bool :=
   existsb (fun o => negb (o_closed o) && Nat.eqb (o_ino o) i) (st_fds st).
@@ -95,48 +90,6 @@ Definition fd_get (st : fstate) (fd : nat) : option (ofd * inode) :=
 Definition kf02 (st : fstate) (op : fop) : option finding := None.
 
 (* ---- directory handles ----------------------------------------------------------- *)
-(* History-determined ghost state used only by the classifier: whether the end of the listing has
-   been delivered on this description (io.EOF batch, or a ReadDir(n <= 0)) since the last rewind, and
-   which of ReadDir / Readdirnames is being used in the current pass. *)
-Record dghost := { g_ended : bool; g_kind : option bool (* true = ReadDir *) }.
-Definition ghost0 : dghost := {| g_ended := false; g_kind := None |}.
-
-Definition kind_differs (g : dghost) (k : bool) : bool :=
-  match g_kind g with Some k' => negb (Bool.eqb k k') | None => false end.
-
-Definition kfdir (listing : list str) (d : dfd) (g : dghost) (op : dop) : option finding :=
-  if d_closed d then None
-  else
-    let rd (k : bool) (n : Z) :=
-      match listing with
-      | [] => None
-      | _ =>
-          if g_ended g then Some KfDirRestart
-          else if kind_differs g k && Nat.ltb 0 (d_cursor d) then Some KfDirMixedCursors
-          else if Z.leb n 0 && Nat.ltb 0 (d_cursor d) then Some KfDirAllAfterPartial
-          else None
-      end in
-    match op with
-    | DReadDir n => rd true n
-    | DReaddirnames n => rd false n
-    | DRewind => if Nat.ltb 0 (d_cursor d) && negb (g_ended g) then Some KfDirSeek else None
-    | DRead _ | DClose => None
-    end.
-
-Definition dghost_step (listing : list str) (d : dfd) (g : dghost) (op : dop) : dghost :=
-  if d_closed d then g
-  else
-    let rd (k : bool) (n : Z) :=
-      if Z.leb n 0 || Nat.leb (length listing) (d_cursor d)
-      then {| g_ended := true; g_kind := None |}
-      else {| g_ended := g_ended g; g_kind := Some k |} in
-    match op with
-    | DReadDir n => rd true n
-    | DReaddirnames n => rd false n
-    | DRewind => ghost0
-    | _ => g
-    end.
-
 (* the implementation side of a directory operation, on handle hi *)
 Definition impl_dcall (hi : nat) (op : dop) : call :=
   match op with
